@@ -1457,6 +1457,9 @@ func handleClientMessage(c *webClient, m clientMessage) error {
 		if redirect := g.Description().Redirect; redirect != "" {
 			// We normally redirect at the HTTP level, but the group
 			// description could have been edited in the meantime.
+			// AddClient has already inserted us into the group: leave.
+			c.group = g
+			leaveGroup(c)
 			username := c.username
 			return c.write(clientMessage{
 				Type:     "joined",
